@@ -1,5 +1,6 @@
 import Rangers.Proofs.MinerToy
 import Rangers.Proofs.MinerTx
+import Rangers.Proofs.MinerTotals
 /-!
 # C20 — miner registry and stake accounting agree with the applied miner transactions
 
@@ -513,5 +514,28 @@ theorem lock_conservation_counterexample : ¬ FullStatementRefundConserves := by
       · trivial, rfl⟩
   have := h toyCfg _ addr2 [0x22] 100 .val toy_codecId toy_rawOK hr (by simp [Untouched, toyCfg]) (by decide)
   exact absurd this (by decide)
+
+/-! ## total stake and proposer count used for leader election -/
+
+/-- Full strength: the total `GetProposerTotalStakeWithDetail` returns is the (`uint64`) sum of the stakes
+    of the proposer records the iterator yields that are normal and already applied at height `h`. -/
+theorem totals_agree_total (cfg : Cfg) (st : State) (h : Nat) :
+    (proposerTotals cfg st h).1 = (((iter cfg st .prop).filter (active h)).map (·.stake)).sum % 2 ^ 64 := by
+  unfold proposerTotals totalsFold
+  rw [totalsFold_fst _ _ _ (by decide)]
+  simp [sumActive]
+
+/-- The proposer count (`GetProposerTotalStake` = size of the detail map) is the number of those
+    records — in a committed, well-keyed registry (where the iterator yields each id once). -/
+theorem totals_agree_count (cfg : Cfg) (st : State) (h : Nat) (hf : Flushed st) (hr : RecKeyed cfg st) :
+    proposerCount cfg st h = ((iter cfg st .prop).filter (active h)).length := by
+  unfold proposerCount proposerTotals totalsFold
+  rw [totalsFold_snd]
+  · simp
+  · exact (iter_ids_nodup cfg st .prop hf hr).sublist (List.Sublist.map _ List.filter_sublist)
+  · intro m _; simp
+
+def tApplyP : Tx := .apply addr1 [0x11] 1 2000 [] [1] [1]
+example : proposerTotals toyCfg (run toyCfg funded [.tx tApplyP, .endBlock 101]) 101 = (2000, [([0x11], 2000)]) := by decide
 
 end Rangers.Props.C20
